@@ -120,22 +120,24 @@ def termCharsGlob : Inp → List Char × Inp
 /-- `!(AND | OR | NOT)` -/
 def noKeyword (s : Inp) : Bool := (kwAnd s).isNone && (kwOr s).isNone && (kwNot s).isNone
 
+/-- `TERM_START_CHAR ~ TERM_CHAR*`, the common part of `TERM` and `TERM_PREFIX` -/
+def termScan (s : Inp) : Option (List Char × Inp) :=
+  match termStartChar s with
+  | none => none
+  | some (a, r) => let p := termChars r; some (a ++ p.1, p.2)
+
 /-- `TERM = @{ !(AND | OR | NOT) ~ TERM_START_CHAR ~ TERM_CHAR* }` -/
 def term (s : Inp) : Option (List Char × Inp) :=
-  if !noKeyword s then none
-  else match termStartChar s with
-    | none => none
-    | some (a, r) => let p := termChars r; some (a ++ p.1, p.2)
+  if !noKeyword s then none else termScan s
 
 /-- `TERM_PREFIX = @{ TERM_START_CHAR ~ TERM_CHAR* ~ STAR ~ &TERM_END_CHAR }` (text includes the `*`) -/
 def termPrefix (s : Inp) : Option (List Char × Inp) :=
-  match termStartChar s with
+  match termScan s with
   | none => none
-  | some (a, r) =>
-    let p := termChars r
-    match p.2 with
+  | some (t, r) =>
+    match r with
     | [] => none
-    | c :: r'' => if c = '*' && atTermEnd r'' then some (a ++ p.1 ++ ['*'], r'') else none
+    | c :: r'' => if c = '*' && atTermEnd r'' then some (t ++ ['*'], r'') else none
 
 /-- `TERM_GLOB = @{ TERM_START_CHAR_GLOB ~ TERM_CHAR_GLOB* ~ &TERM_END_CHAR }` -/
 def termGlob (s : Inp) : Option (List Char × Inp) :=
@@ -386,10 +388,12 @@ def multiterm (s : Inp) : Option (List (List Char) × Inp) :=
 /-- `modifiers = { PLUS | NOT }`: `true` = NOT -/
 def modifiers (s : Inp) : Option (Bool × Inp) :=
   match s with
-  | '+' :: r => some (false, r)
-  | _ => match kwNot s with
-    | some r => some (true, r)
-    | none => none
+  | [] => none
+  | c :: r =>
+    if c = '+' then some (false, r)
+    else match kwNot s with
+      | some r' => some (true, r')
+      | none => none
 
 /-- `conjunction = { AND | OR }`: `true` = OR -/
 def conjunction (s : Inp) : Option (Bool × Inp) :=
